@@ -21,7 +21,7 @@ ASSUMPTIONS = ["invalid_disparity values are float32-representable (the map is f
 GATES = {
     "two_blocks_both_axes_with_tie_and_allnan_in_later_block": 1,
     "nan_invalid_disparity": 1, "more_than_256_disparity_samples": 1,
-    "max_type_with_ties": 1, "disparity_object_reused_for_a_volume_of_the_other_type": 3, "volume_computed_with_a_window_larger_than_1": 3, "volume_with_infinite_costs": 3, "volume_is_a_window_of_a_larger_buffer": 3, "volume_in_the_matching_cost_layout": 3,
+    "max_type_with_ties": 1, "similarity_volume_with_costs_at_or_below_minus_cmax": 3, "disparity_object_reused_for_a_volume_of_the_other_type": 3, "volume_computed_with_a_window_larger_than_1": 3, "volume_with_infinite_costs": 3, "volume_is_a_window_of_a_larger_buffer": 3, "volume_in_the_matching_cost_layout": 3,
     "all_27_patterns_D3": 1,
     "pipeline_disparity_steps": 5,
     "pixels_judged": 100000,
@@ -178,6 +178,13 @@ def run_case(case, ctx):
             costs[150 % rows, 120 % cols, :] = 1.0
             costs[(150 % rows) - 1, 120 % cols, :] = np.nan
             lo[150 % rows, 120 % cols], hi[150 % rows, 120 % cols] = 0, nd - 1
+        cmax_attr = None
+        if tm == "max" and (case["j"] + rows + cols) % 2 == 1:
+            # a bounded similarity (zncc: cmax 1) whose computable costs are all at or below -cmax on some pixels (anti-correlated
+            # windows): a missing cost is still worse than any computable one
+            costs = -costs - np.float32(1.0)
+            cmax_attr = 1
+        ctx.gate("similarity_volume_with_costs_at_or_below_minus_cmax", int(cmax_attr is not None and nan_kind != "none"))
         with_inf = (case["j"] + rows + 2 * cols) % 5 == 2 and nd >= 2
         if with_inf:
             # a few computable costs are infinite (overflowing squared differences, a plugin's "forbidden" marker): the worst
@@ -211,7 +218,8 @@ def run_case(case, ctx):
         # the window the volume was computed with (offset_row_col = its radius): flags and costs of the border rows / columns
         # are whatever the producer of the volume put there, and must be carried over like the others
         wsz = [1, 3, 5, 1][(case["j"] + rows + cols) % 4] if min(rows, cols) >= 5 else 1
-        cv = gen.make_cv(costs, disps, tm, window_size=wsz, subpix=subpix, validity=validity, conf=conf, conf_names=names)
+        cv = gen.make_cv(costs, disps, tm, window_size=wsz, subpix=subpix, validity=validity, conf=conf, conf_names=names,
+                         cmax=cmax_attr)
         ctx.gate("volume_computed_with_a_window_larger_than_1", int(wsz > 1))
         if layout != "C" and cv["cost_volume"].data.flags["C_CONTIGUOUS"] and sum(int(n_ > 1) for n_ in (rows, cols, nd)) >= 2:
             ctx.inconclusive.append(f"layout {layout} was lost when the dataset was built")
